@@ -162,6 +162,8 @@ def all_reads(prog) -> List[Read]:
             r.roles = classify(fn, node)
         else:
             r.roles = classify(fn, node)
+        if not r.roles and not isinstance(parent(node), ast.Expr):
+            r.roles = [("UNCLASSIFIED", "no consumer of the text could be classified", node)]
         out.append(r)
     return out
 
